@@ -59,8 +59,40 @@ Definition from_pnode (regs : list reg) (ns : Z) (p : pnode) : res node :=
         end
       end.
 
+(* ---------- validation of the loaded node array (FromPickleable, after fix F16) ---------- *)
+(* kind-specific consistency of one node with its arity *)
+Definition node_payload_ok (nil : bool) (n : node) : bool :=
+  match nkind n with
+  | KdLeaf => Nat.eqb (narity n) 0
+  | KdNone => Nat.eqb (narity n) 0 && negb nil
+  | KdDict | KdODict => match ndat n with DKeys ks => Nat.eqb (length ks) (narity n) | _ => false end
+  | KdDDict => match ndat n with DDefault _ ks => Nat.eqb (length ks) (narity n) | _ => false end
+  | KdCustom => match nentries n with Some es => Nat.eqb (length es) (narity n) | None => true end
+  | _ => true
+  end && match norig n with Some ks => Nat.eqb (length ks) (narity n) | None => true end.
+
+Definition sum_fst (l : list (nat * nat)) : nat := fold_right (fun p a => fst p + a)%nat O l.
+Definition sum_snd (l : list (nat * nat)) : nat := fold_right (fun p a => snd p + a)%nat O l.
+
+(* replay of the post-order traversal with a stack of (num_leaves, num_nodes) per pending subtree *)
+Fixpoint validate_go (nil : bool) (ns : list node) (stack : list (nat * nat)) : bool :=
+  match ns with
+  | [] => Nat.eqb (length stack) 1
+  | n :: rest =>
+    if Nat.ltb (length stack) (narity n) then false
+    else
+      let popped := firstn (narity n) stack in
+      let nl := ((match nkind n with KdLeaf => 1 | _ => 0 end) + sum_fst popped)%nat in
+      let nn := S (sum_snd popped) in
+      if negb (Nat.eqb (nleaves n) nl && Nat.eqb (nnodes n) nn) then false
+      else if negb (node_payload_ok nil n) then false
+      else validate_go nil rest ((nl, nn) :: skipn (narity n) stack)
+  end.
+
+Definition validate (nil : bool) (ns : list node) : bool := validate_go nil ns [].
+
 Definition from_pickle (regs : list reg) (p : pstate) : res spec :=
   let '(pns, nl, ns) := p in
   do ns' <- mapM (from_pnode regs ns) pns ;;
   let s := {| trav := ns'; snil := nl; sns := ns |} in
-  if sanity s then Ok s else Err InternalError.
+  if sanity s then (if validate nl ns' then Ok s else Err RuntimeError) else Err InternalError.
